@@ -57,9 +57,10 @@ Fixpoint dec_alpn (fuel : nat) (v : bytes) : option (list bytes) :=
     match fuel with
     | O => None
     | S f =>
-      if (n =? 0) || (nlen t <? n) then None
+      let c := firstn (N.to_nat n) t in
+      if (n =? 0) || (nlen c <? n) then None
       else match dec_alpn f (skipn (N.to_nat n) t) with
-           | Some r => Some (firstn (N.to_nat n) t :: r)
+           | Some r => Some (c :: r)
            | None => None
            end
     end
@@ -72,9 +73,10 @@ Fixpoint dec_chunks (n : nat) (fuel : nat) (v : bytes) : option (list bytes) :=
     match fuel with
     | O => None
     | S f =>
-      if (length v <? n)%nat then None
+      let c := firstn n v in
+      if (length c <? n)%nat then None
       else match dec_chunks n f (skipn n v) with
-           | Some r => Some (firstn n v :: r)
+           | Some r => Some (c :: r)
            | None => None
            end
     end
